@@ -433,12 +433,14 @@ ALLOWED_MEMOS = {
     ("common/canonical.py", "object", "cached_property"),           # per instance
 }
 MEMO_NAMES = {"lru_cache", "cache", "cached_property"}
+STATE_MODULES = {"contextvars", "threading", "multiprocessing", "shelve", "atexit"}   # context / thread / process-wide state
 
 
 def audit_sources(srcdir):
     """Syntactic audit of every module under src/tpmstream for the usual carriers of state that survives a call:
-    default arguments evaluated once (anything but constants and plain names), global/nonlocal statements, and
-    memo decorators / uses of functools' memo helpers other than the known ones. Returns a sorted list of findings
+    default arguments evaluated once (anything but constants and plain names), global/nonlocal statements,
+    memo decorators / uses of functools' memo helpers other than the known ones, and imports of modules that provide
+    context-, thread- or process-wide state (contextvars, threading, ...). Returns a sorted list of findings
     (empty on a tree without such carriers). Pure ast: nothing is imported or run."""
     import ast
     import os
@@ -485,6 +487,11 @@ def audit_sources(srcdir):
                             else:
                                 out.append("memo:%s:%s:%s" % (rel, name, ast.unparse(dec)))
                                 allowed_nodes.add(id(core))
+                if isinstance(n, (ast.Import, ast.ImportFrom)):
+                    mods = [a.name for a in n.names] if isinstance(n, ast.Import) else [n.module or ""]
+                    for mname in mods:
+                        if mname.split(".")[0] in STATE_MODULES:
+                            out.append("state-module:%s:%s" % (rel, mname))
                 if isinstance(n, (ast.Global, ast.Nonlocal)):
                     out.append("%s:%s:%s" % ("global" if isinstance(n, ast.Global) else "nonlocal", rel, ",".join(n.names)))
             # any other use of functools' memo helpers (called as functions, assigned, ...)
